@@ -5,6 +5,7 @@
 //! `INCONCLUSIVE ...`, never folded into the other two). A run that observed nothing
 //! exits 3 so it cannot be mistaken for a pass.
 
+use std::time::Duration;
 use std::{
     collections::{BTreeMap, HashSet},
     path::PathBuf,
@@ -136,6 +137,18 @@ impl Args {
                         args.tier.name()
                     );
                 }
+            }
+        }
+        // every check runs as a supervised child of itself: a death of the process (stack
+        // exhaustion, allocation failure, abort) while a worker is inside a call into the code
+        // under test is reported by the parent with what that worker was doing
+        {
+            // no address-space limit where the check itself starts compilers / sanitizer runtimes
+            let limit: u64 = if args.prop == "C09" || args.prop == "C19" { 0 } else { 48 << 30 };
+            let wall = Duration::from_secs(if args.tier == Tier::Thorough { 8 * 3600 } else { 2 * 3600 });
+            let sig = if args.prop == "C05" { "C05/aborted-or-hung-while-translating".to_string() } else { format!("{}/aborted", args.prop) };
+            if let Some(code) = crate::shard::supervise(&args.prop, &args.root, &sig, limit, wall) {
+                std::process::exit(code);
             }
         }
         // hang watchdog (CPU time of one evaluation, never wall-clock time)
